@@ -566,7 +566,7 @@ func (C16) Nontrivial(ops, outs []string) bool {
 type C17 struct{}
 
 func (C17) Generate(rng *rand.Rand, tier string) []core.Case {
-	cases := genDbCases(rng, tier, []string{"notif", "notif", "mix", "range"}, 250, 12000, 45)
+	cases := genDbCasesOpt(rng, tier, []string{"notif", "notif", "mix", "range"}, 250, 12000, 45, true)
 	// subscribers (re)connect at every offset at the end of each program
 	for ci := range cases {
 		n := 0
@@ -578,6 +578,12 @@ func (C17) Generate(rng *rand.Rand, tier string) []core.Case {
 		if !strings.Contains(cases[ci].Ops[0], "notif=0") {
 			for s := 0; s <= n+1; s += 1 + n/12 {
 				cases[ci].Ops = append(cases[ci].Ops, fmt.Sprintf("db.notifs %d", s))
+			}
+			// trimming rounds: retention 100..400 ms of model time, "now" sweeping over the write timestamps
+			ret := 100 + rng.Intn(300)
+			for r := 0; r < 3; r++ {
+				now := 1000 + rng.Intn(60*n+600)
+				cases[ci].Ops = append(cases[ci].Ops, fmt.Sprintf("db.trim %d %d", now, ret), "db.dump", "db.notifs 0")
 			}
 		}
 	}
@@ -591,10 +597,12 @@ func (C17) Timeout() time.Duration          { return 60 * time.Second }
 func (C17) Oracle(ops, impl, model []string) string {
 	type batch struct {
 		off    int64
+		ts     int64
 		expect string
 	}
 	var batches []batch
 	enabled := true
+	trimCutoff := int64(-1) // highest "now - retention" of the trimming rounds so far
 	for i, o := range ops {
 		if i >= len(impl) {
 			break
@@ -607,7 +615,14 @@ func (C17) Oracle(ops, impl, model []string) string {
 		switch f[0] {
 		case "db.new":
 			batches = nil
+			trimCutoff = -1
 			enabled = !strings.Contains(o, "notif=0")
+		case "db.trim":
+			now, _ := strconv.ParseInt(f[1], 10, 64)
+			ret, _ := strconv.ParseInt(f[2], 10, 64)
+			if now-ret > trimCutoff {
+				trimCutoff = now - ret
+			}
 		case "db.write":
 			puts, dels, _, ok := splitResp(out)
 			if !ok {
@@ -666,17 +681,24 @@ func (C17) Oracle(ops, impl, model []string) string {
 			for j, k := range keys {
 				parts[j] = ns[core.Hex([]byte(k))]
 			}
-			batches = append(batches, batch{off, fmt.Sprintf("N(%d,%d,[%s])", off, ts, strings.Join(parts, ","))})
+			batches = append(batches, batch{off, int64(ts), fmt.Sprintf("N(%d,%d,[%s])", off, ts, strings.Join(parts, ","))})
 		case "db.notifs":
 			if !enabled {
 				continue
 			}
 			start, _ := strconv.ParseInt(f[1], 10, 64)
 			var want []string
+			var wantTs []int64
 			for _, b := range batches {
 				if b.off >= start {
 					want = append(want, b.expect)
+					wantTs = append(wantTs, b.ts)
 				}
+			}
+			// trimming may have removed a prefix of batches, each of them expired
+			gotFields := strings.Fields(out)
+			for len(want) > 0 && wantTs[0] <= trimCutoff && (len(gotFields) < 2 || gotFields[1] != want[0]) {
+				want, wantTs = want[1:], wantTs[1:]
 			}
 			exp := fmt.Sprintf("n=%d %s", len(want), strings.Join(want, " "))
 			if strings.TrimSpace(out) != strings.TrimSpace(exp) {
